@@ -98,6 +98,7 @@ def run(ctx, model):
     from props import kernels
     kernels.run_plan(ctx, model, "C04")
     run_spill(ctx, model)
+    run_bool_deep(ctx, model)
     rng = ctx.rng
     windows = []
     for C in (500, 4000):
@@ -186,6 +187,50 @@ def run(ctx, model):
                 if len(ctx.samples) < 3:
                     ctx.sample({"case": case, "read": [lx.tag_summary(t) for t in res[:2]]})
                 sess.close()
+
+
+def run_bool_deep(ctx, model):
+    """BOOL-array slices that start deep inside a large array: the driver reads such a slice from DWORD 0 up to the DWORD
+    of the last requested BOOL, so the reply is as large as that PREFIX of the array — what must fit the connection (or be
+    read in fragments) is the prefix, not the few BOOLs asked for"""
+    rng = ctx.rng
+    for i in range(ctx.budget(12, 100)):
+        C = rng.choice([500, 500, 4000])
+        edge = (C - 20) // 4                       # DWORDs of a reply that about fills the connection
+        words = edge + rng.choice([40, 200])
+        mem = bytes(rng.getrandbits(8) for _ in range(4 * words))
+        sym = lg.Symbol(40, "flags", "atomic", "DWORD", [words, 0, 0], mem)
+        p = {"templates": [], "controller": [sym, lg.Symbol(43, "other", "atomic", "DINT", [0, 0, 0], bytes(4))], "programs": [],
+             "rev": rng.choice([19, 21, 32]), "micro800": False, "pages": [], "tmpl": [], "reads": rng.choice([[], [], [100]])}
+        sess = lx.Session(model, p, conn_large=(C == 4000))
+        if sess.open_error is not None:
+            sess.close()
+            continue
+        last_word = edge + rng.choice([-6, -3, -2, -1, 0, 1, 2, 5, 30])
+        n = rng.choice([1, 2, 32, 33, 64])
+        start = max(0, 32 * last_word + rng.randrange(32) - n + 1)
+        tag = "flags[%d]{%d}" % (start, n) if n > 1 else "flags[%d]" % start
+        multi = rng.random() < 0.4
+        case = {"connection_size": C, "array_dwords": words, "request": tag, "dwords_from_0": (start + n + 31) // 32, "with_other_request": multi, "index": i}
+        sess.log()
+        try:
+            res = core.with_budget(120, sess.d.read, *([tag, "other"] if multi else [tag]))
+        except BaseException as e:  # noqa
+            if isinstance(e, (KeyboardInterrupt, SystemExit)):
+                raise
+            ctx.violation("read-raises:" + core.exn_class(e), case, repr(e)[:300])
+            sess.close()
+            continue
+        got = res[0] if isinstance(res, list) else res
+        ctx.case("bool-deep", ("bd", C, start, n, multi))
+        bits = [bool(mem[k // 8] >> (k % 8) & 1) for k in range(start, start + n)]
+        want = bits if n > 1 else bits[0]
+        if not got:
+            ctx.violation("bool-slice-not-readable", case, "falsy: %s" % lx.tag_summary(got))
+        elif got.value != want:
+            ctx.violation("bool-slice-wrong-value", case, "expected %s got %s" % (str(want)[:80], str(got.value)[:80]))
+        check_log(ctx, sess, dict(case, op="read"), "read")
+        sess.close()
 
 
 def run_spill(ctx, model):
